@@ -38,7 +38,7 @@ Print Assumptions C02_inside_the_operation.
 (* re-enabling delivers everything postponed, operation after operation *)
 Theorem C02_release_in_operation_order : forall p s owed ob s' owed',
   step2 p (s, owed) (SetEnabled true) ob = Some (s', owed') -> en s = false ->
-  (o_exc ob =? 3) = false ->
+  (o_exc ob =? 3) = false -> (o_exc ob =? 4) = false ->
   owed' = [] /\ exists chunks, filter is_lc (o_log ob) = concat chunks /\
                 Forall2 (@Permutation cb) chunks (owed ++ [[]]).
 Proof. exact release_in_order. Qed.
@@ -50,10 +50,21 @@ Print Assumptions C02_release_in_operation_order.
    enabling assignment *)
 Theorem C02_release_interrupted : forall p s owed ob s' owed',
   step2 p (s, owed) (SetEnabled true) ob = Some (s', owed') -> (o_exc ob =? 3) = true ->
-  owed_raise (if en s then owed else owed ++ [[]]) (filter is_lc (o_log ob)) = Some owed' /\
+  owed_raise raises (if en s then owed else owed ++ [[]]) (filter is_lc (o_log ob)) = Some owed' /\
   Permutation (concat owed) (filter is_lc (o_log ob) ++ concat owed').
 Proof. exact release_interrupted. Qed.
 Print Assumptions C02_release_interrupted.
+
+(* ... and when a delivered callback disables dispatching again (outcome kind 4;
+   the nested assignment is the next operation of the history): the release
+   stops after that call, everything not called is still owed IN ORDER, ahead
+   of whatever is postponed afterwards *)
+Theorem C02_release_stopped : forall p s owed ob s' owed',
+  step2 p (s, owed) (SetEnabled true) ob = Some (s', owed') -> (o_exc ob =? 4) = true ->
+  owed_raise disables (if en s then owed else owed ++ [[]]) (filter is_lc (o_log ob)) = Some owed' /\
+  Permutation (concat owed) (filter is_lc (o_log ob) ++ concat owed').
+Proof. exact release_stopped. Qed.
+Print Assumptions C02_release_stopped.
 
 (* a component is a registered listener exactly while it sits in a slot *)
 Theorem C02_registered_iff_attached : forall p s owed o ob s' owed' i r,
@@ -158,4 +169,27 @@ Proof. vm_compute. auto. Qed.
 Example C02_lost_after_raise_rejected :
   holds_b {| c_p := exx_p; c_tr := exx_prefix ++
     [ (SetEnabled true, mkobs None 0 [] [] []) ] |} = false.
+Proof. vm_compute. reflexivity. Qed.
+
+(* a callback that disables dispatching during the release: instance 2001 stops
+   it; what is postponed afterwards (on_remove of 2) comes after what was left
+   (on_add of 2), at the next enabling assignment *)
+Definition exd_p : params :=
+  {| p_cls := [(2001, 1); (2, 1)];
+     p_kinds := [(1, {| k_h := true; k_add := true; k_rem := true; k_probe := false |})] |}.
+Definition exd_prefix : trace :=
+  [ (SetEnabled false, mkobs None 0 [] [] []);
+    (Create (Some 1) [2001], mkobs (Some 1) 0 [] [] []);
+    (Create (Some 2) [2], mkobs (Some 2) 0 [] [] []);
+    (SetEnabled true, mkobs None 4 [] [mkcb CAdd 2001 1 true] []);
+    (SetEnabled false, mkobs None 0 [] [] [QIsH 2 true]);
+    (Delete 2 true, mkobs None 0 [] [] [QIsH 2 false]) ].
+Example C02_stopped_release_accepted :
+  let c := {| c_p := exd_p; c_tr := exd_prefix ++
+    [ (SetEnabled true, mkobs None 0 [] [mkcb CAdd 2 2 true; mkcb CRem 2 2 true] []) ] |} in
+  wf_b c = true /\ known_b c = false /\ accepts c = true.
+Proof. vm_compute. auto. Qed.
+Example C02_reordered_after_stop_rejected :
+  holds_b {| c_p := exd_p; c_tr := exd_prefix ++
+    [ (SetEnabled true, mkobs None 0 [] [mkcb CRem 2 2 true; mkcb CAdd 2 2 true] []) ] |} = false.
 Proof. vm_compute. reflexivity. Qed.
